@@ -817,3 +817,47 @@ func (b *TxBuilder) Draw(m TxMix) bool {
 	}
 	return ks[b.E.Pick(ws...)].fn()
 }
+
+// Adopt makes the builder treat the given (already accepted) transactions as
+// part of its set: their inputs count as used and their outputs are available
+// as ephemeral parents.
+func (b *TxBuilder) Adopt(txns []types.Transaction, v2txns []types.V2Transaction) {
+	for _, txn := range txns {
+		ts := b.L.TxnSupplement(txn)
+		b.ms.ApplyTransaction(txn, ts)
+		for _, in := range txn.SiacoinInputs {
+			b.usedSC[in.ParentID] = true
+		}
+		for _, in := range txn.SiafundInputs {
+			b.usedSF[in.ParentID] = true
+		}
+		for _, r := range txn.FileContractRevisions {
+			b.usedFC[r.ParentID] = true
+		}
+		for _, p := range txn.StorageProofs {
+			b.usedFC[p.ParentID] = true
+		}
+		b.Txns = append(b.Txns, txn)
+	}
+	for _, txn := range v2txns {
+		b.ms.ApplyV2Transaction(txn)
+		for _, in := range txn.SiacoinInputs {
+			b.usedSC[in.Parent.ID] = true
+		}
+		for _, in := range txn.SiafundInputs {
+			b.usedSF[in.Parent.ID] = true
+		}
+		for _, r := range txn.FileContractRevisions {
+			b.usedFC[r.Parent.ID] = true
+		}
+		for _, r := range txn.FileContractResolutions {
+			b.usedFC[r.Parent.ID] = true
+		}
+		for i := range txn.SiacoinOutputs {
+			if _, ok := b.Net.ActorByAddr(txn.SiacoinOutputs[i].Address); ok {
+				b.eph = append(b.eph, txn.EphemeralSiacoinOutput(i))
+			}
+		}
+		b.V2Txns = append(b.V2Txns, txn)
+	}
+}
